@@ -364,3 +364,91 @@ Proof.
       split; [intros b0 E; discriminate|].
       intros j q [Hj | Hj] Fq Qq Nq; [subst j; rewrite F in Fq; inversion Fq; subst; exact A | apply (B j q Hj Fq Qq Nq)].
 Qed.
+
+(** ** memory flavour: every stored id is in the order log, so the planned victim is an oldest queued
+    message of the whole store *)
+Definition order_covers (s : state) : Prop := incl (ids (msgs s)) (order s).
+
+Lemma prune_order_covers c now hint s : order_covers s -> order_covers (prune c now hint s).
+Proof.
+  unfold order_covers. rewrite prune_msgs_eq, prune_order. intros H i Hi. apply H.
+  apply (apply_pm_ids_incl (prune_pm c now hint s) (msgs s)); [apply imm_pres_id_pres; apply prune_pm_imm | exact Hi].
+Qed.
+
+Lemma step_enqueue_order_covers c now single es o s :
+  order_covers s -> order_covers (fst (step_enqueue Mem c now single es o s)).
+Proof.
+  intros H. unfold step_enqueue. destruct es as [|e0 es0]; [exact H|].
+  pose proof (prune_order_covers c now (o_gone o) s H) as H1.
+  destruct (assign_ids (e0 :: es0) (o_genids o)) as [ies|]; [|exact H].
+  destruct (mem_plan _ _ _ _) as [victims|]; [|exact H1].
+  assert (Done : order_covers (mkState (apply_pm (pm_remove_ids victims) (msgs (prune c now (o_gone o) s)) ++ map (fun p => mk_msg now (fst p) (snd p)) ies)
+                                       (order (prune c now (o_gone o) s) ++ map fst ies) (last_prune (prune c now (o_gone o) s))
+                                       (last_sweep (prune c now (o_gone o) s)) (issued (prune c now (o_gone o) s)))).
+  { unfold order_covers. simpl. intros i Hi. unfold ids in Hi. rewrite map_app in Hi. apply in_app_or in Hi. apply in_or_app.
+    destruct Hi as [Hi | Hi].
+    - left. apply H1. apply (apply_pm_ids_incl (pm_remove_ids victims)); [auto with qimm | exact Hi].
+    - right. rewrite map_map in Hi. simpl in Hi. exact Hi. }
+  destruct single.
+  - destruct (pressure _ _); [exact H1|]. destruct (negb _); [exact H1 | exact Done].
+  - destruct (negb _); [exact H1|]. destruct (pressure _ _); [exact H1 | exact Done].
+Qed.
+
+Lemma step_order_unchanged c s x o :
+  enq_list x = [] -> order (fst (step Mem c s x o)) = order s.
+Proof.
+  intros He. destruct x; simpl in He; try discriminate; cbn [step].
+  - subst es. reflexivity.
+  - rewrite step_dequeue_eq. cbv zeta. unfold deq_pre. simpl.
+    destruct (valid_pick _ _ _ _ _ _ _); simpl; apply prune_order.
+  - unfold step_lease. destruct (is_noop_extend k); [reflexivity|].
+    destruct l; try reflexivity. destruct (lease_one c now k l (msgs s)) as [l' [|[|]]]; reflexivity.
+  - destruct (batch_kind_ok k); [|reflexivity]. unfold step_lease_batch.
+    destruct (lease_batch c now _ ls (msgs s)) as [[ms' n] cs]. reflexivity.
+  - reflexivity.
+  - destruct k; try reflexivity; unfold step_manage_f; destruct (f_preview f); reflexivity.
+  - unfold step_list. destruct ord; simpl; apply prune_order.
+  - unfold step_list_dead. simpl. apply prune_order.
+  - reflexivity.
+  - unfold step_stats. simpl. apply prune_order.
+  - reflexivity.
+Qed.
+
+Theorem step_order_covers c s x o : Inv s -> order_covers s -> order_covers (fst (step Mem c s x o)).
+Proof.
+  intros I H. destruct (enq_list x) as [|e0 es0] eqn:He.
+  - unfold order_covers. rewrite (step_order_unchanged c s x o He).
+    destruct (step Mem c s x o) as [s' r] eqn:Es. simpl.
+    destruct (step_sound Mem c s x o s' r I Es) as [pm [news [E [P N]]]].
+    assert (Nn : news = []).
+    { destruct N as [N | [_ [ies [EA En]]]]; [exact N|]. rewrite He in EA. simpl in EA. inversion EA; subst. reflexivity. }
+    subst news. rewrite app_nil_r in E. rewrite E. intros i Hi. apply H.
+    apply (apply_pm_ids_incl_on pm (msgs s)); [|exact Hi].
+    intros y y' Hy Ey. specialize (P y Hy). rewrite Ey in P. apply (change_same_imm c x r y y') in P. destruct P as [A _]. congruence.
+  - destruct x; simpl in He; try discriminate; cbn [step]; apply step_enqueue_order_covers; exact H.
+Qed.
+
+Theorem order_covers_reachable c xs : order_covers (snd (run Mem c init xs)).
+Proof.
+  assert (G : forall s, Inv s -> order_covers s -> order_covers (snd (run Mem c s xs))).
+  { induction xs as [|[x o] tl IH]; intros s I H; [exact H|]. simpl.
+    pose proof (step_inv Mem c s x o I) as I1. pose proof (step_order_covers c s x o I H) as H1.
+    destruct (step Mem c s x o) as [s' r]. simpl in I1, H1. specialize (IH s' I1 H1).
+    destruct (run Mem c s' tl) as [evs sf]. exact IH. }
+  apply G; [apply inv_init | intros i []].
+Qed.
+
+(** the first victim the memory store plans is an oldest queued message of the store *)
+Theorem mem_first_victim_is_oldest c xs m :
+  let s := snd (run Mem c init xs) in
+  mem_oldest (order s) (msgs s) [] None = Some m ->
+  In m (msgs s) /\ queuedb m = true /\ forall q, In q (msgs s) -> queuedb q = true -> m_recv m <= m_recv q.
+Proof.
+  intros s H. pose proof (reachable_inv Mem c xs) as I. fold s in I.
+  pose proof (order_covers_reachable c xs) as Cv. fold s in Cv.
+  destruct (mem_oldest_fresh _ _ _ _ _ H) as [E | [Hm [Hq _]]]; [discriminate|].
+  split; [exact Hm|]. split; [exact Hq|]. intros q Hq1 Hq2.
+  apply (proj2 (mem_oldest_min _ _ _ _ _ H) (m_id q) q); auto.
+  - apply Cv. apply in_map. exact Hq1.
+  - apply find_id_In_NoDup; [apply I | exact Hq1].
+Qed.
